@@ -13,8 +13,10 @@ actions see, and the state (md5 of every file_dep, existence of targets) at ever
     KeyboardInterrupt / SystemExit raised inside the action at every action index, with and without prior DB
     content, with and without an earlier failing task (--continue).
       * correspondence: the event trace + exit code of the interrupted run is compared with Model/Runner.v
-        `run_serial` on the same task table, evaluated inside Coq (table = what TaskControl computes for the same
-        task definitions; t_check = up-to-dateness recomputed by the harness from the logged file states);
+        `run_serial` on the same task table, evaluated inside Coq (table = task_dep / setup_tasks of every task as
+        the run itself logs them when its TaskDispatcher is created -- the order of implicit task_deps follows a
+        set iteration, i.e. the hash seed of THAT process; t_check = up-to-dateness recomputed by the harness from
+        the logged file states);
       * oracle 1 (trace): the conclusions of C06_interrupt_flush, re-checked in python on the observed trace;
       * oracle 2 (DB): the DB left behind, opened with the real backend class, records exactly the tasks the
         harness's book-keeping of save_success/remove_success says (prior records of untouched tasks kept);
@@ -24,6 +26,29 @@ actions see, and the state (md5 of every file_dep, existence of targets) at ever
         untouched prior record still fits).
     The thorough tier repeats the sweep with the process and thread runners and the timestamp checker (oracles
     only, no model).
+
+(1b) value half of the interrupt sweep (serial AND thread runner, every backend, both tiers).  Task sets in which every
+    task has 2-3 actions, the earlier ones returning value dicts or result strings (so the interrupted execution has
+    already produced values when a later action raises); tasks with a `rev` file that is no file_dep, whose first
+    action saves {'rev': ...} and whose uptodate callable `f(task, values)` compares the saved values['rev'] with the
+    present file; getargs consumers (the producer becomes a setup-task and, through doit's implicit result_dep, part of
+    the consumer's up-to-dateness).  Histories: one or two complete runs (the interrupted task succeeded before with
+    non-empty values), edits, the interrupted run, then -- variant prior-revert -- the edit is taken back (all of it,
+    sources only, rev files only) so that the state the OLD record was made for is the present state again.
+      * oracle 2b (record rule, stated as the property text allows): for every task that the interrupted run neither
+        saved (save_success) nor removed (remove_success) -- the interrupted task, the tasks not yet started, the
+        skipped ones -- the record read by the real backend class after the run is EXACTLY the record read before the
+        run, or absent; never anything else (e.g. the old signatures next to values of the interrupted execution).  A
+        task saved by the run is recorded with exactly the values its completed execution returned; a removed one is
+        absent.
+      * oracle 3b: in every run of the case the `values` handed to an uptodate callable and the value a getargs consumer
+        receives are those of the last successful execution that was saved and flushed (or saved earlier in the same
+        run); the next run skips exactly the tasks whose flushed successful execution was made for the present state
+        (file_dep md5s, rev file, producer's result).
+      * correspondence: for the serial runner the DB after the interrupted run -- every record, key by key -- is
+        compared with Crash.session_db (= Crash.db_ops on the trace Model/Runner.v computes, applied to the DB read
+        before the run; recd = the (key, value) pairs save_success was seen handing to backend.set), evaluated in
+        Coq together with the trace.  This is the term C06_interrupt_db / C06_interrupt_record_untouched speak about.
 
 (2) kill sweep.  The same child under
         strace -f -P <db files> -e trace=S -e inject=<s>:signal=SIGKILL:when=<k>
@@ -58,6 +83,9 @@ Encoding of an observed run (= Runner.enc_trace ++ [-1; rc]):
     2 UnmetDependency 3 DependencyError)  [5,t] execute_task  [6,t] add_success  [7,t] save_success
     [8,t] remove_success  [9,t] teardown_task  [10] Dependency.close  [13] KeyboardInterrupt/SystemExit escaped
     DoitMain.run;  rc: exit code of DoitMain.run, 4 when the interrupt escaped, 97 any other escaping exception.
+Encoding of the DB after an interrupted run (appended after the marker -7; = Crash.enc_spec): per task, in definition
+    order, [-1] = no record | [1, v_0, ..., v_(K-1)] = the id of the JSON value stored under each of the K record keys
+    seen in the case (sorted; -1 = the record has no such key); value ids number the distinct canonical JSON texts.
 """
 import concurrent.futures, hashlib, json, os, re, shutil, subprocess, sys, time
 
@@ -75,6 +103,56 @@ def _md5(path):
             return hashlib.md5(f.read()).hexdigest()
     except OSError:
         return None
+
+
+def _read(path):
+    try:
+        with open(path) as f:
+            return f.read()
+    except OSError:
+        return ''
+
+
+def rev_of(t):
+    """the `revision` a task works for: content hash of its rev file (not a file_dep: only the uptodate callable of the
+    task, through the saved value 'rev', sees a change) or, without rev file, of its own source"""
+    return hashlib.md5(_read(t.get('revfile') or t['file_dep'][0]).encode()).hexdigest()[:10]
+
+
+def values_of(t, ai, rev):
+    """the dict action ai of t returns when its spec says ret='dict': 'rev' + keys that depend on the action and on the
+    revision (a record mixing two executions has keys of both)"""
+    return {'rev': rev, 'a%d' % ai: [t['name'], ai], 'k' + rev[:3]: ai}
+
+
+def full_values(t, rev):
+    """task.values of a COMPLETED execution of t: the union of the dicts its actions return"""
+    vals = {}
+    for ai, a in enumerate(t['actions']):
+        if a.get('ret') == 'dict':
+            vals.update(values_of(t, ai, rev))
+    return vals
+
+
+def result_token(t, rev):
+    """what save_success stores under 'result:' for a completed execution of t (task.result = the last action's result): the
+    dict the last action returned, the md5 of the string it returned, nothing (None) when it returned True"""
+    last = len(t['actions']) - 1
+    ret = t['actions'][last].get('ret')
+    if ret == 'dict':
+        return values_of(t, last, rev)
+    if ret == 'str':
+        return hashlib.md5(result_string(t, last).encode('utf-8')).hexdigest()
+    return None
+
+
+def result_string(t, ai):
+    return 'c06 result of %s action %d' % (t['name'], ai)
+
+
+def dep_state_of(t):
+    """everything the up-to-dateness of t depends on: md5 of every file_dep and of the rev file"""
+    return [[p, _md5(p)] for p in sorted(t['file_dep'])] + ([[t['revfile'], _md5(t['revfile'])]] if t.get('revfile') else [])
 
 
 class _Log:
@@ -100,11 +178,10 @@ def child_main(spec_path):
     from doit.doit_cmd import DoitMain
     from doit.cmd_base import ModuleTaskLoader
 
-    def dep_state(t):
-        return [[p, _md5(p)] for p in sorted(t['file_dep'])]
+    dep_state = dep_state_of
 
     def make_action(t, ai, act):
-        def action():
+        def action(v=None):
             log('start', run_id, t['name'], ai)
             kind = act['kind']
             if kind == 'kbd':
@@ -123,10 +200,23 @@ def child_main(spec_path):
                         f.write(h + '\n' + 'x' * t.get('pad', 0))
                     mt = 1600000000 + int(h[:6], 16)
                     os.utime(tg, (mt, mt))
-                log('done', run_id, t['name'], dep_state(t))
+                if t.get('getargs'):
+                    log('got', run_id, t['name'], v)
+                log('done', run_id, t['name'], dep_state(t), full_values(t, rev_of(t)), result_token(t, rev_of(t)))
+            if act.get('ret') == 'dict':
+                return values_of(t, ai, rev_of(t))
+            if act.get('ret') == 'str':
+                return result_string(t, ai)
             return True
         action.__name__ = 'act_%s_%d' % (t['name'], ai)
         return action
+
+    def make_uptodate(t):
+        def saved_rev_is_current(task, values):
+            # the magic `values` argument: the values saved by the last successful execution
+            log('utd-values', run_id, t['name'], values)
+            return values.get('rev') == rev_of(t)
+        return saved_rev_is_current
 
     def make_teardown(t):
         def td():
@@ -139,6 +229,10 @@ def child_main(spec_path):
                      file_dep=list(t['file_dep']), targets=list(t['targets']), task_dep=list(t['task_dep']))
             if t.get('teardown'):
                 d['teardown'] = [make_teardown(t)]
+            if t.get('revfile'):
+                d['uptodate'] = [make_uptodate(t)]
+            if t.get('getargs'):
+                d['getargs'] = {'v': (t['getargs'][0], t['getargs'][1])}
             return d
         return creator
 
@@ -175,7 +269,17 @@ def child_main(spec_path):
     o_save, o_remove, o_close = D.Dependency.save_success, D.Dependency.remove_success, D.Dependency.close
 
     def w_save(self, task, result_hash=None):
-        r = o_save(self, task, result_hash)
+        # the (key, value) pairs save_success hands to backend.set: `recd` of Model/Crash.v
+        o_set = self._set
+
+        def l_set(task_id, key, value):
+            log('set', run_id, task_id, key, value)
+            return o_set(task_id, key, value)
+        self._set = l_set
+        try:
+            r = o_save(self, task, result_hash)
+        finally:
+            self._set = o_set
         log('ev', run_id, 7, ids[task.name])
         return r
 
@@ -190,6 +294,15 @@ def child_main(spec_path):
             log('ev', run_id, 10)
         return r
     D.Dependency.save_success, D.Dependency.remove_success, D.Dependency.close = w_save, w_remove, w_close
+
+    # the task table the run really uses (task_dep with the implicit ones, setup_tasks with the getargs producers, in the
+    # order TaskControl left them -- that order depends on set iteration, hence on this process's hash seed)
+    o_tdinit = C.TaskDispatcher.__init__
+
+    def w_tdinit(self, tasks, targets, selected_tasks):
+        o_tdinit(self, tasks, targets, selected_tasks)
+        log('table', run_id, {nm: [list(t.task_dep), list(t.setup_tasks)] for nm, t in tasks.items()})
+    C.TaskDispatcher.__init__ = w_tdinit
 
     o_uw = C.TaskDispatcher._update_waiting
 
@@ -287,7 +400,47 @@ def gen_scenario(rng, n, big=False, select_all=False):
 
 
 def sources_of(sc):
-    return sorted({p for t in sc['tasks'] for p in t['file_dep'] if p.startswith('src')})
+    """the files the harness writes (and modifies between runs): sources and rev files"""
+    return sorted({p for t in sc['tasks'] for p in t['file_dep'] if p.startswith('src')} | {t['revfile'] for t in sc['tasks'] if t.get('revfile')})
+
+
+def gen_value_scenario(rng, n):
+    """task sets for the value half of the interrupt sweep: every task has 2-3 actions, earlier ones return value dicts
+    or result strings; some tasks have a rev file + an uptodate callable reading the saved `values`; some take a value of a
+    later task through getargs (the producer becomes a setup-task)"""
+    tasks = []
+    for i in range(n):
+        later = list(range(i + 1, n))
+        fdep, tdep = ['src%d' % i], []
+        for j in later:
+            r = rng.random()
+            if r < 0.25:
+                fdep.append('out%d' % j)
+            elif r < 0.4:
+                tdep.append('t%d' % j)
+        na = rng.choice([2, 2, 3])
+        acts = [dict(kind='ok', ret=rng.choice(['dict', 'dict', 'str', 'true'])) for _ in range(na)]
+        acts[0]['ret'] = rng.choice(['dict', 'dict', 'dict', 'str'])
+        t = dict(name='t%d' % i, file_dep=fdep, targets=['out%d' % i], task_dep=tdep, actions=acts,
+                 teardown=rng.random() < 0.2, pad=rng.choice([0, 7]),
+                 revfile=('rev%d' % i) if rng.random() < 0.6 else None, getargs=None)
+        tasks.append(t)
+    # at least one value-checking task; its first action is the one that returns 'rev'
+    if not any(t['revfile'] for t in tasks):
+        k = rng.randrange(n)
+        tasks[k]['revfile'] = 'rev%d' % k
+    for t in tasks:
+        if t['revfile']:
+            t['actions'][0]['ret'] = 'dict'
+    # getargs consumers: from a later task (whose first action then returns a dict)
+    for i in range(n - 1):
+        if rng.random() < 0.6 or (i == 0 and not any(t['getargs'] for t in tasks)):
+            j = rng.randrange(i + 1, n)
+            tasks[j]['actions'][0]['ret'] = 'dict'
+            tasks[i]['getargs'] = ['t%d' % j, rng.choice(['rev', 'rev', None])]
+    sel = ['t%d' % i for i in range(n)]
+    rng.shuffle(sel)
+    return dict(tasks=tasks, selected=sel)
 
 
 def write_source(d, name, version):
@@ -348,7 +501,8 @@ def read_log(d):
 
 def run_view(recs, run_id):
     """what one run did, from the log"""
-    v = dict(events=[], trace=[], rc=None, done={}, sel={}, wake={}, ended=False, escaped=None, started=[])
+    v = dict(events=[], trace=[], rc=None, done={}, sel={}, wake={}, ended=False, escaped=None, started=[],
+             vals={}, utdv=[], got=[], sets={}, rtok={}, table=None)
     for r in recs:
         if len(r) < 2 or r[1] != run_id:
             continue
@@ -358,6 +512,16 @@ def run_view(recs, run_id):
             v['trace'] += r[2:]
         elif k == 'done':
             v['done'][r[2]] = r[3]
+            v['vals'][r[2]] = r[4] if len(r) > 4 else {}
+            v['rtok'][r[2]] = r[5] if len(r) > 5 else None
+        elif k == 'table':
+            v['table'] = r[2]
+        elif k == 'utd-values':
+            v['utdv'].append((r[2], r[3]))
+        elif k == 'got':
+            v['got'].append((r[2], r[3]))
+        elif k == 'set':
+            v['sets'].setdefault(r[2], []).append((r[3], r[4]))
         elif k == 'sel-state':
             v['sel'][r[2]] = (r[3], r[4])
         elif k == 'wake':
@@ -381,40 +545,88 @@ class Book:
     successful execution that was saved last (save_success/remove_success of runs that reached close)"""
     def __init__(self):
         self.rec = {}
+        self.vals = {}     # task -> the values that execution returned (what `values` / getargs may show afterwards)
+        self.rtok = {}     # task -> the result that execution left under 'result:' (what a getargs consumer's result_dep compares)
 
     def apply(self, sc, v):
         names = [t['name'] for t in sc['tasks']]
-        pending = dict(self.rec)
+        pending, pvals, ptok = dict(self.rec), dict(self.vals), dict(self.rtok)
         closed = False
         for e in v['events']:
             if e[0] == 7:
                 pending[names[e[1]]] = v['done'].get(names[e[1]])
+                pvals[names[e[1]]] = v['vals'].get(names[e[1]], {})
+                ptok[names[e[1]]] = v['rtok'].get(names[e[1]])
             elif e[0] == 8:
                 pending.pop(names[e[1]], None)
+                pvals.pop(names[e[1]], None)
+                ptok.pop(names[e[1]], None)
             elif e[0] == 10:
                 closed = True
         if closed:
-            self.rec = pending
+            self.rec, self.vals, self.rtok = pending, pvals, ptok
         return closed
+
+    def enrich(self, sc, v):
+        """getargs consumers: doit gives them an implicit result_dep on the producer -- the consumer is up-to-date only if the
+        producer's recorded result equals the one the consumer saved (values['_result:<producer>']) at its own last success.
+        Adds, to the logged state of a consumer at its selection and at its completion, the producer's result visible at that
+        moment (this run's, if the producer was saved earlier in this run, else the flushed one of the book), and to the values
+        of its completed execution the '_result:<producer>' entry.  self = the book BEFORE the run."""
+        names = [t['name'] for t in sc['tasks']]
+        ev = v['events']
+        for t in sc['tasks']:
+            if not t.get('getargs'):
+                continue
+            c, prod = t['name'], t['getargs'][0]
+
+            def visible(upto):
+                tok = self.rtok.get(prod) if prod in self.rec else None
+                for e in ev[:upto]:
+                    if e[:2] == [7, names.index(prod)]:
+                        tok = v['rtok'].get(prod)
+                    elif e[:2] == [8, names.index(prod)]:
+                        tok = None
+                return tok
+            if c in v['sel'] and [1, names.index(c)] in ev:
+                st, ok = v['sel'][c]
+                v['sel'][c] = (st + [['_result:' + prod, visible(ev.index([1, names.index(c)]))]], ok)
+            if c in v['done']:
+                upto = ev.index([7, names.index(c)]) if [7, names.index(c)] in ev else len(ev)
+                tok = visible(upto)
+                v['done'][c] = v['done'][c] + [['_result:' + prod, tok]]
+                v['vals'][c] = dict(v['vals'].get(c, {}), **{'_result:' + prod: tok})
+        return v
+
+    def saved_values(self, name):
+        """what Dependency.get_values(name) may return: the values of the last flushed successful execution"""
+        return self.vals.get(name, {}) if name in self.rec else {}
 
     def utd(self, name, sel):
         state, targets_ok = sel
+        if any(isinstance(x[0], str) and x[0].startswith('_result:') and x[1] is None for x in state):
+            return False    # result_dep: no recorded result of the producer -> never up-to-date
         return bool(targets_ok and name in self.rec and self.rec[name] == state)
 
 
-def model_rows(sc, kinds, utd_names):
-    """the task table as TaskControl.__init__ leaves it, for Model/Runner.v"""
-    from doit.task import Task
-    from doit.control import TaskControl
+def model_rows(sc, kinds, utd_names, table=None):
+    """the task table as TaskControl.__init__ leaves it, for Model/Runner.v.  table = {task: [task_dep, setup_tasks]} as logged
+    by the run itself (the order of implicit task_deps follows the iteration order of a set of strings in THAT process); without
+    it the table is recomputed here with the real TaskControl"""
     names = [t['name'] for t in sc['tasks']]
     ids = {nm: i for i, nm in enumerate(names)}
-    tl = [Task(t['name'], [], file_dep=t['file_dep'], targets=t['targets'], task_dep=t['task_dep']) for t in sc['tasks']]
-    tc = TaskControl(tl)
+    if table is None:
+        from doit.task import Task
+        from doit.control import TaskControl
+        tl = [Task(t['name'], [], file_dep=t['file_dep'], targets=t['targets'], task_dep=t['task_dep'],
+                   getargs=({'v': tuple(t['getargs'])} if t.get('getargs') else {})) for t in sc['tasks']]
+        tc = TaskControl(tl)
+        table = {nm: [list(tc.tasks[nm].task_dep), list(tc.tasks[nm].setup_tasks)] for nm in names}
     rows = []
     for t in sc['tasks']:
-        real = tc.tasks[t['name']]
+        task_dep, setup = table[t['name']]
         kind = (kinds or {}).get(t['name'], (0, 'ok'))[1]
-        rows.append(dict(task_dep=[ids[x] for x in real.task_dep], setup=[], calc_dep=[], teardown=bool(t.get('teardown')),
+        rows.append(dict(task_dep=[ids[x] for x in task_dep], setup=[ids[x] for x in setup], calc_dep=[], teardown=bool(t.get('teardown')),
                          dbignore=False, check='utd' if t['name'] in utd_names else 'run', argerr=False,
                          outcome={'ok': 'ok', 'fail': 'fail', 'error': 'error', 'kbd': 'interrupt', 'sysexit': 'interrupt'}[kind],
                          calc_task=[], calc_file=[], calc_calc=[]))
@@ -449,6 +661,43 @@ def recorded_tasks(d, backend, names):
         shutil.rmtree(cp, ignore_errors=True)
 
 
+def db_records(d, backend):
+    """{task: record} as the real backend class reads the DB on disk (on a copy, so that nothing is modified); the whole
+    record of every task, not only the keys the harness knows about"""
+    cp = d + '-recs'
+    shutil.rmtree(cp, ignore_errors=True)
+    os.makedirs(cp)
+    for p in db_files(d, backend):
+        if os.path.exists(p):
+            shutil.copy2(p, cp)
+    try:
+        db = open_backend(cp, backend)
+        if backend == 'json':
+            recs = dict(db._db)
+        elif backend == 'dbm':
+            recs = {}
+            for k in db._dbm.keys():
+                name = k.decode('utf-8')
+                db.get(name, 'deps:')
+                recs[name] = db._db.get(name)
+            db._dbm.close()
+        else:
+            recs = {}
+            for row in db._conn.execute('select task_id from doit').fetchall():
+                db.get(row['task_id'], 'deps:')
+                recs[row['task_id']] = db._cache.get(row['task_id'])
+            db._conn.close()
+        return json.loads(json.dumps(recs))
+    except Exception as e:   # noqa
+        return {'<unreadable>': '%s: %s' % (type(e).__name__, e)}
+    finally:
+        shutil.rmtree(cp, ignore_errors=True)
+
+
+def canon(x):
+    return json.dumps(x, sort_keys=True)
+
+
 # ------------------------------------------------------------------ (1) interrupt sweep
 def trace_oracle(events, k):
     """the conclusions of C06_interrupt_flush on an observed trace (k = interrupted task); returns a complaint or None"""
@@ -473,49 +722,142 @@ def trace_oracle(events, k):
     return None
 
 
+def value_complaints(sc, v, book, what_run):
+    """oracle on what the uptodate callables (magic `values` argument) and the getargs consumers of one run were shown: only
+    values of a successful execution that was saved and flushed (book = the harness's record BEFORE this run) or saved
+    earlier in this very run"""
+    names = [t['name'] for t in sc['tasks']]
+    byname = {t['name']: t for t in sc['tasks']}
+    out = []
+    for name, seen in v['utdv']:
+        want = book.saved_values(name)
+        if canon(seen) != canon(want):
+            out.append(('values', '%s: the uptodate callable of %s was given values=%s, the last successful flushed execution of it returned %s'
+                        % (what_run, name, canon(seen), canon(want))))
+    saved_here = {names[e[1]] for e in v['events'] if e[0] == 7}
+    for name, got in v['got']:
+        prod, key = byname[name]['getargs']
+        src = v['vals'].get(prod, {}) if prod in saved_here else book.saved_values(prod)
+        want = src if key is None else src.get(key)
+        if canon(got) != canon(want):
+            out.append(('getargs', '%s: %s received %s through getargs (%s, %s); the last successful execution of %s returned %s'
+                        % (what_run, name, canon(got), prod, key, prod, canon(want))))
+    return out
+
+
+def record_complaints(sc, v1, rec0, rec1, target, closed):
+    """the record rule of the property on the DB left by the interrupted run, per task:
+         saved in this run (save_success, no later remove_success, DB flushed) -> recorded, with the values of that execution;
+         remove_success in this run                                            -> absent;
+         anything else (the interrupted task, the tasks not started, the skipped ones) -> the interrupted run records nothing
+         about it: its record is exactly the record found before the run, or absent -- never anything else"""
+    names = [t['name'] for t in sc['tasks']]
+    out = []
+    if '<unreadable>' in rec0 or '<unreadable>' in rec1:
+        return [('unreadable', 'DB not readable before/after the interrupted run: %s %s' % (rec0.get('<unreadable>'), rec1.get('<unreadable>')))]
+    last = {}
+    for e in v1['events']:
+        if e[0] in (7, 8):
+            last[names[e[1]]] = e[0]
+    for name in names:
+        before, after = rec0.get(name), rec1.get(name)
+        role = 'interrupted' if name == target else ('not started' if [5, names.index(name)] not in v1['events'] else 'executed')
+        if last.get(name) == 7 and closed:
+            if after is None or canon(after.get('_values_:')) != canon(v1['vals'].get(name, {})):
+                out.append(('saved-values', 'task %s was saved by the interrupted run with values %s; its record holds %s'
+                            % (name, canon(v1['vals'].get(name, {})), canon(None if after is None else after.get('_values_:')))))
+        elif last.get(name) == 8:
+            if after is not None:
+                out.append(('removed', 'task %s failed in the interrupted run (remove_success) but is recorded: %s' % (name, canon(after))))
+        elif after is not None and canon(after) != canon(before):
+            out.append(('record', 'LYING DB: the %s task %s was neither saved nor removed by the interrupted run, but its record changed: '
+                        'before %s, after %s' % (role, name, canon(before), canon(after))))
+    return out
+
+
 def interrupt_case(job):
-    """one interrupted run + DB inspection + next run.  Returns a dict of observations (no doit import needed here
-    except for the DB inspection)."""
+    """history of complete runs + one interrupted run + DB inspection + next run.  Returns a dict of observations (no doit
+    import needed here except for the DB inspection)."""
     d, sc, backend, variant, target, ai, kind, args2 = (job[x] for x in ('dir', 'sc', 'backend', 'variant', 'target', 'ai', 'kind', 'args'))
     names = [t['name'] for t in sc['tasks']]
+    history = job.get('history')
+    if history is None:
+        history = [] if variant == 'fresh' else [job.get('modify', [])]
+    revert = job.get('revert', [])
     res = dict(job=dict(replay='interrupt', backend=backend, variant=variant, target=target, ai=ai, kind=kind, args=args2,
-                        modify=job.get('modify', []), failing=job.get('failing'), runner=job.get('runner', 'serial'),
-                        tasks=sc['tasks'], selected=sc['selected']), problems=[])
+                        modify=job.get('modify', []), history=history, revert=revert, failing=job.get('failing'),
+                        runner=job.get('runner', 'serial'), tasks=sc['tasks'], selected=sc['selected']), problems=[], complaints=[])
     os.makedirs(d, exist_ok=True)
+    version = {}
     for s in sources_of(sc):
+        version[s] = 0
         write_source(d, s, 0)
     book = Book()
     rid = 0
-    if variant != 'fresh':
+    for mods in history:
         rc, err = run_child(d, sc, backend, rid, args=args2)
-        v0 = run_view(read_log(d), rid)
+        v0 = book.enrich(sc, run_view(read_log(d), rid))
+        res['complaints'] += value_complaints(sc, v0, book, 'complete run %d' % rid)
         if rc != 0 or not book.apply(sc, v0):
             res['problems'].append(('harness', 'prior run failed rc=%s %s' % (rc, err[-300:])))
             return res
-        for s in job['modify']:
-            write_source(d, s, 1)
+        for s in mods:
+            version[s] += 1
+            write_source(d, s, version[s])
         rid += 1
     kinds = {target: (ai, kind)}
     if job.get('failing'):
         kinds[job['failing']] = (0, 'fail')
+    rec0 = db_records(d, backend)
     rc1, err1 = run_child(d, sc, backend, rid, kinds=kinds, args=args2)
-    v1 = run_view(read_log(d), rid)
-    res['rc1'], res['v1'] = rc1, v1
+    v1 = book.enrich(sc, run_view(read_log(d), rid))
+    rec1 = db_records(d, backend)
+    res['rc1'], res['v1'], res['rec0'], res['rec1'] = rc1, v1, rec0, rec1
     utd1 = {nm for nm in names if nm in v1['sel'] and book.utd(nm, v1['sel'][nm])}
     res['utd1'] = sorted(utd1)
     res['kinds'] = kinds
+    res['complaints'] += value_complaints(sc, v1, book, 'interrupted run')
     closed = book.apply(sc, v1)
     res['closed'] = closed
+    res['complaints'] += record_complaints(sc, v1, rec0, rec1, target, closed)
     res['recorded'] = recorded_tasks(d, backend, names)
     res['expected_recorded'] = sorted(book.rec)
+    for s in revert:   # the user takes the edit back: the state the prior record was made for is the present state again
+        if version.get(s, 0) > 0:
+            version[s] -= 1
+            write_source(d, s, version[s])
     rid += 1
     rc2, err2 = run_child(d, sc, backend, rid, args=args2)
-    v2 = run_view(read_log(d), rid)
+    v2 = book.enrich(sc, run_view(read_log(d), rid))
     res['rc2'], res['v2'], res['err2'] = rc2, v2, err2[-400:]
     res['expect_skip2'] = sorted(nm for nm in names if nm in v2['sel'] and book.utd(nm, v2['sel'][nm]))
+    res['complaints'] += value_complaints(sc, v2, book, 'run after the interrupted run')
     book.apply(sc, v2)
     shutil.rmtree(d, ignore_errors=True)
     return res
+
+
+def db_model(names, rec0, rec1, sets):
+    """Coq term (with a hole @TR@ for the trace) for the DB after the run according to Model/Crash.v, and the encoding of the
+    DB the real backend reads after the run.  Keys and JSON values are numbered per case."""
+    if '<unreadable>' in rec0 or '<unreadable>' in rec1 or any(nm not in names for nm in list(rec0) + list(rec1) + list(sets)):
+        return None, None
+    keys = sorted({k for r in list(rec0.values()) + list(rec1.values()) for k in r} | {k for l in sets.values() for k, _ in l})
+    kid = {k: i for i, k in enumerate(keys)}
+    vals = {}
+
+    def vid(x):
+        return vals.setdefault(canon(x), len(vals))
+    pairs = lambda items: '[' + '; '.join('(%d, %d%%Z)' % (kid[k], vid(x)) for k, x in items) + ']'
+    m0 = 'mk_spec [' + '; '.join('(%d, %s)' % (names.index(nm), pairs(sorted(rec0[nm].items()))) for nm in names if nm in rec0) + ']'
+    recd = ('(fun n : name => (match n with ' + ' '.join('| %d => %s' % (names.index(nm), pairs(l)) for nm, l in sorted(sets.items()))
+            + ' | _ => [] end : list (N * Z)))')
+    term = 'enc_spec %s %s (session_db %s (%s) @TR@)' % (runlib.nl(range(len(names))), runlib.nl(range(len(keys))), recd, m0)
+    exp = []
+    for nm in names:
+        r = rec1.get(nm)
+        exp += [-1] if r is None else [1] + [vid(r[k]) if k in r else -1 for k in keys]
+    return term, exp
 
 
 def part_interrupt(ctx, out, cases):
@@ -544,10 +886,40 @@ def part_interrupt(ctx, out, cases):
                                 job['modify'] = sorted(set(job['modify'] + ['src' + job['failing'][1:]]))
                                 job['args'] = ['--continue']
                             jobs.append(job)
+    # ---- value half: several actions, earlier ones return value dicts / result strings; the interrupted task succeeded before
+    # with non-empty values; uptodate callables reading the saved `values`; getargs consumers; serial and thread runner
+    vscs = [gen_value_scenario(rng, n) for n in ([3, 2] if ctx.quick else [3, 2, 3, 4, 3, 2])]
+    n_old = len(jobs)
+    for si, sc in enumerate(vscs):
+        srcs = sources_of(sc)
+        for t in sc['tasks']:
+            own = ['src' + t['name'][1:]] + ([t['revfile']] if t['revfile'] else [])
+            for ai in range(len(t['actions'])):
+                if ctx.quick and ai == 0 and rng.random() < 0.5:
+                    continue    # nothing was returned yet when the first action is interrupted: sampled in the quick tier
+                for backend in BACKENDS:
+                    for runner in ('serial', 'thread'):
+                        for variant in ('prior', 'prior-revert', 'prior2'):
+                            if ctx.quick and variant == 'prior2' and rng.random() < 0.5:
+                                continue
+                            if ctx.quick and runner == 'thread' and backend != 'json' and rng.random() < 0.5:
+                                continue    # sampled in the quick tier (JsonDB is the backend that dumps its whole cache)
+                            # the interrupted task must be out of date in the interrupted run: its source, its rev file or both
+                            must = rng.choice([own[:1], own[-1:], own])
+                            last = sorted(set(rng.sample(srcs, rng.randrange(0, len(srcs) + 1)) + must))
+                            history = [last] if variant != 'prior2' else [sorted(set(rng.sample(srcs, rng.randrange(1, len(srcs) + 1)) + own)), last]
+                            revert = []
+                            if variant == 'prior-revert':   # the edit is taken back after the interrupted run: all of it / sources only / rev files only
+                                revert = rng.choice([last, [x for x in last if x.startswith('src')], [x for x in last if x.startswith('rev')]])
+                            jobs.append(dict(dir=os.path.join(base, 'v%d' % len(jobs)), sc=sc, backend=backend, variant=variant,
+                                             target=t['name'], ai=ai, kind=rng.choice(['kbd', 'sysexit']), modify=last, history=history,
+                                             revert=revert, failing=None, runner=runner,
+                                             args=['-n', '2', '-P', 'thread'] if runner == 'thread' else []))
+    out.extra['interrupt_value_runs'] = len(jobs) - n_old
     if not ctx.quick:   # parallel runners and the other checker: oracles only
         extra = []
         for job in jobs:
-            if rng.random() < 0.25:
+            if job['runner'] == 'serial' and rng.random() < 0.25:
                 j2 = dict(job)
                 j2['dir'] = job['dir'] + 'p'
                 j2['runner'] = rng.choice(['process', 'thread', 'timestamp'])
@@ -557,7 +929,7 @@ def part_interrupt(ctx, out, cases):
         jobs += extra
     with concurrent.futures.ThreadPoolExecutor(max_workers=common.NCPU) as ex:
         results = list(ex.map(interrupt_case, jobs))
-    n_model = 0
+    n_model = n_dbmodel = 0
     for job, res in zip(jobs, results):
         sc = job['sc']
         names = [t['name'] for t in sc['tasks']]
@@ -577,17 +949,26 @@ def part_interrupt(ctx, out, cases):
         out.evaluations += 1
         if reached:
             out.nontrivial.add((job['backend'], job['variant'], job['runner'], job['kind'], tuple(v1['trace'])))
-        # correspondence with Runner.v (serial runner only)
+        # correspondence with Runner.v (serial runner only): the trace and exit code of the interrupted run, and -- through
+        # Crash.db_ops on that trace -- the whole DB it leaves (every record, key by key)
         if serial:
-            rows = model_rows(sc, res['kinds'], set(res['utd1']))
+            rows = model_rows(sc, res['kinds'], set(res['utd1']), v1.get('table'))
             sfx = str(len(cases))
             wake = {int(p): o for p, o in v1['wake'].items()}
             defs = '\n'.join([runlib.coq_table(rows, sfx), runlib.coq_wake(wake, sfx)])
             cont = 'true' if '--continue' in job['args'] else 'false'
-            expr = ('let r := run_serial tb%s wk%s (fun x => x) %s false FUEL %s in enc_trace (fst r) ++ [-1; zN (snd r)]%%Z'
-                    % (sfx, sfx, cont, runlib.nl([ids[x] for x in sc['selected']])))
-            cases.append(dict(defs=defs, model=expr, expected=v1['trace'] + [-1, res['rc1'] if res['rc1'] is not None else 95],
-                              desc=('interrupt-trace', desc)))
+            expected = v1['trace'] + [-1, res['rc1'] if res['rc1'] is not None else 95]
+            dbm, dbx = db_model(names, res['rec0'], res['rec1'], v1['sets'])
+            if dbm is None:
+                expr = ('let r := run_serial tb%s wk%s (fun x => x) %s false FUEL %s in enc_trace (fst r) ++ [-1; zN (snd r)]%%Z'
+                        % (sfx, sfx, cont, runlib.nl([ids[x] for x in sc['selected']])))
+            else:
+                expr = ('let r := run_serial tb%s wk%s (fun x => x) %s false FUEL %s in '
+                        'enc_trace (fst r) ++ [-1; zN (snd r)]%%Z ++ ((-7)%%Z :: %s)'
+                        % (sfx, sfx, cont, runlib.nl([ids[x] for x in sc['selected']]), dbm.replace('@TR@', '(fst r)')))
+                expected = expected + [-7] + dbx
+                n_dbmodel += 1
+            cases.append(dict(defs=defs, model=expr, expected=expected, desc=('interrupt-trace+db', desc)))
             n_model += 1
         # oracle 1: the trace properties of C06_interrupt_flush
         if reached and serial:
@@ -602,8 +983,37 @@ def part_interrupt(ctx, out, cases):
         if res['recorded'] != res['expected_recorded']:
             out.violations.append(dict(what='after the interrupted run the %s DB records %s, the successful+flushed tasks are %s'
                                             % (job['backend'], res['recorded'], res['expected_recorded']), shape=shape + ':db', case=desc))
-        if reached and job['target'] in res['recorded'] and job['target'] not in res['utd1']:
-            pass   # a prior record of the interrupted task is left untouched (it did not match the present state anyway)
+        # oracle 2b: the record of every task, before vs after (the interrupted / not started ones: unchanged or absent);
+        # what uptodate callables (`values`) and getargs consumers were shown in every run of the case
+        seen_kinds = set()
+        for ckind, what in res['complaints']:
+            if ckind not in seen_kinds:
+                seen_kinds.add(ckind)
+                out.violations.append(dict(what='interrupt in %s action %d (%s backend, %s runner, %s): %s'
+                                                % (job['target'], job['ai'], job['backend'], job['runner'], job['variant'], what),
+                                           shape=shape + ':' + ckind, case=desc))
+        if reached and job['target'] in res['rec0']:
+            out.count('interrupted-task-had-record:values-%s' % ('nonempty' if res['rec0'][job['target']].get('_values_:') else 'empty'))
+        if reached:
+            out.count('interrupted-at-action:%d-of-%d' % (job['ai'], len(sc['tasks'][k]['actions'])))
+            tt = sc['tasks'][k]
+            feats = [f for f, on in (('values-uptodate', tt.get('revfile')), ('getargs-consumer', tt.get('getargs')),
+                                     ('getargs-producer', any((x.get('getargs') or [None])[0] == tt['name'] for x in sc['tasks'])),
+                                     ('returned-dict-before', any(a.get('ret') == 'dict' for a in tt['actions'][:job['ai']])),
+                                     ('returned-str-before', any(a.get('ret') == 'str' for a in tt['actions'][:job['ai']]))) if on]
+            for f in feats:
+                out.count('interrupted-task-feature:' + f)
+        if reached and job.get('revert') and job['target'] in res['expect_skip2']:
+            out.count('next-run:interrupted-task-up-to-date-by-its-OLD-record (edit taken back)')
+        if reached and job.get('revert') and not any(x.get('kind') == 'interrupt-values' for x in out.samples):
+            out.samples.append(dict(kind='interrupt-values', backend=job['backend'], runner=job['runner'], interrupted=job['target'], action=job['ai'],
+                                    history=job['history'], taken_back=job['revert'], record_before=res['rec0'].get(job['target']),
+                                    record_after=res['rec1'].get(job['target']), next_run_expected_skipped=res['expect_skip2'],
+                                    next_run_skipped=sorted(names[i] for i in ev_tasks(v2, 3)), next_run_getargs_received=v2['got']))
+        for nm_, _ in v2['utdv']:
+            out.count('next-run:uptodate-callable-read-values')
+        for nm_, _ in v2['got']:
+            out.count('next-run:getargs-consumer-executed')
         # oracle 3: the next run
         skipped2 = sorted(names[i] for i in ev_tasks(v2, 3))
         executed2 = sorted(names[i] for i in ev_tasks(v2, 5))
@@ -618,17 +1028,29 @@ def part_interrupt(ctx, out, cases):
         if reached:
             succ1 = [names[i] for i in ev_tasks(v1, 6)]
             # every task reported successful before the interruption is skipped next time; the interrupted one runs
-            if any(nm in executed2 for nm in succ1 if nm in v2['sel']):
-                out.violations.append(dict(what='task reported successful before the interruption was executed again: %s' % [nm for nm in succ1 if nm in executed2],
+            # (a getargs consumer whose producer leaves no result -- its last action returns True -- is never up-to-date: doit's
+            # implicit result_dep answers False without a recorded result; such a task is recorded but always executed)
+            never = {t['name'] for t in sc['tasks'] if t.get('getargs')
+                     and sc['tasks'][ids[t['getargs'][0]]]['actions'][-1].get('ret') not in ('dict', 'str')}
+            again = [nm for nm in succ1 if nm in v2['sel'] and nm in executed2 and nm not in never]
+            for nm in succ1:
+                if nm in never:
+                    out.count('successful-before-interrupt:never-up-to-date (getargs producer without result)')
+            if not job.get('revert') and again:
+                out.violations.append(dict(what='task reported successful before the interruption was executed again: %s' % again,
                                            shape=shape + ':forgot', case=desc))
-            if job['target'] in v2['sel'] and job['target'] not in executed2:
+            if not job.get('revert') and job['target'] in v2['sel'] and job['target'] not in executed2:
                 out.violations.append(dict(what='LYING DB: the interrupted task %s was skipped by the next run' % job['target'],
                                            shape=shape + ':lying', case=desc))
         if len(out.samples) < 2 and reached and job['variant'] != 'fresh':
             out.samples.append(dict(kind='interrupt', backend=job['backend'], interrupted=job['target'], action=job['ai'], raised=job['kind'],
                                     trace=v1['trace'], recorded_after=res['recorded'], next_run_skipped=skipped2, next_run_executed=executed2))
+    # the replay files are written for the first few distinct shapes: the record rule and the next run's decision first
+    prio = {'record': 0, 'lying': 1, 'values': 2, 'getargs': 3, 'saved-values': 4}
+    out.violations.sort(key=lambda v: prio.get(v['shape'].rsplit(':', 1)[-1], 9))
     out.extra['interrupt_runs'] = len(jobs)
     out.extra['interrupt_runs_compared_with_Runner_v'] = n_model
+    out.extra['interrupt_runs_whose_DB_was_compared_with_Crash_v_db_ops'] = n_dbmodel
 
 
 # ------------------------------------------------------------------ (2) kill sweep
@@ -1194,10 +1616,25 @@ def compare(ctx, cases):
     return [(i, common.parse_zlist(o)) for i, o in enumerate(outs) if o != 'None']
 
 
+def warm_dbm(ctx):
+    """dbm.open chooses its default module on first use by importing dbm.gnu / dbm.ndbm / dbm.dumb; when the first uses happen
+    concurrently in the worker threads of this harness, one thread can pick up the half-imported dbm.gnu of another (whose
+    import is about to fail) and dbm stays broken for the whole process.  So: first use here, in the main thread."""
+    import dbm
+    d = ctx.subdir('warm-dbm')
+    dbm.open(os.path.join(d, 'x'), 'c').close()
+    db = open_backend(d, 'dbm')
+    db._dbm.close()
+    shutil.rmtree(d, ignore_errors=True)
+
+
 def run(ctx):
     out = Outcome()
+    warm_dbm(ctx)
     out.rule = ('interrupt: every (task, action index) of each generated task set x backend x {fresh, prior DB content[, earlier failing task]} x '
-                '{KeyboardInterrupt, SystemExit}; kill: every (syscall, k) of the un-injected counting run x backend x {fresh, prior, prior+failing task}; '
+                '{KeyboardInterrupt, SystemExit}; value half: every (task, action index) of task sets with multi-action tasks returning value dicts / '
+                'result strings, values-reading uptodate callables and getargs consumers x backend x {serial, thread} x {prior, prior + edit taken back, '
+                'two prior runs}; kill: every (syscall, k) of the un-injected counting run x backend x {fresh, prior, prior+failing task}; '
                 'non-trivial = distinct (configuration, observed trace) of a run whose interrupt was reached / distinct kill point at which the process really died')
     cases = []
     part_interrupt(ctx, out, cases)
@@ -1235,7 +1672,8 @@ def replay(ctx, payload):
     d = os.path.join(ctx.subdir('replay'), 'w')
     if kind == 'interrupt':
         job = dict(dir=d, sc=sc, backend=case['backend'], variant=case['variant'], target=case['target'], ai=case['ai'], kind=case['kind'],
-                   args=case['args'], modify=case.get('modify', []), failing=case.get('failing'), runner=case.get('runner', 'serial'))
+                   args=case['args'], modify=case.get('modify', []), failing=case.get('failing'), runner=case.get('runner', 'serial'),
+                   history=case.get('history'), revert=case.get('revert', []))
         res = interrupt_case(job)
         names = [t['name'] for t in sc['tasks']]
         print('interrupted run: rc=%s trace=%s' % (res.get('rc1'), res.get('v1', {}).get('trace')))
@@ -1243,7 +1681,13 @@ def replay(ctx, payload):
         v2 = res.get('v2', {'events': []})
         skipped = sorted(names[i] for i in ev_tasks(v2, 3))
         print('next run: rc=%s skipped=%s executed=%s, expected skipped=%s' % (res.get('rc2'), skipped, sorted(names[i] for i in ev_tasks(v2, 5)), res.get('expect_skip2')))
-        bad = res.get('recorded') != res.get('expected_recorded') or skipped != res.get('expect_skip2') or res.get('rc2') != 0
+        tgt = case['target']
+        print('record of the interrupted task %s before the interrupted run: %s' % (tgt, canon(res.get('rec0', {}).get(tgt))))
+        print('record of the interrupted task %s after  the interrupted run: %s' % (tgt, canon(res.get('rec1', {}).get(tgt))))
+        for ckind, what in res.get('complaints', []):
+            print('%s: %s' % (ckind, what))
+        bad = (res.get('recorded') != res.get('expected_recorded') or skipped != res.get('expect_skip2') or res.get('rc2') != 0
+               or res.get('complaints') or res.get('problems'))
         return 1 if bad else 0
     if kind == 'kill':
         base = os.path.join(ctx.subdir('replay'), 'base')
